@@ -24,7 +24,12 @@ FOCUSES = [("lx-markup", "AMarkupSmall", 4, 4, "Empty", "Empty"),
            ("lx-liquid-comment", "ALiquid", 3, 4, "PLiquidComment", "SLiquidComment"),
            ("lx-comment", "AComment", 4, 5, "PComment", "SComment"),
            ("lx-comment-open", "AComment", 4, 5, "PCommentOpen", "Empty"),
-           ("lx-raw", "AComment", 3, 4, "PRaw", "SRaw")]
+           ("lx-raw", "AComment", 3, 4, "PRaw", "SRaw"),
+           ("lx-path", "APath", 4, 5, "POutputX", "SOutputClose"),
+           ("lx-path-shorthand", "APath", 4, 5, "POutputX", "SOutputClose"),
+           ("lx-path-open-end", "APath", 3, 4, "POutput", "Empty"),
+           ("lx-path-tag", "APath", 3, 4, "PTag", "STag"),
+           ("lx-path-open", "APath", 3, 4, "POutputPath", "Empty")]
 
 # random long sources (tlc -simulate): markup kinds following one another in ways the short exhaustive sources cannot
 #        focus            alphabet   symbols  walks(quick, thorough)  prefix   suffix
@@ -73,9 +78,12 @@ def lib_tokens(env, src: str):
 def judge(rec, opts):
     from liquid2 import Environment
     from liquid2.exceptions import LiquidSyntaxError
-    env = opts.get("_env")
+    key = "_env_sh" if rec.get("shorthand") else "_env"
+    env = opts.get(key)
     if env is None:
-        env = opts["_env"] = Environment()
+        class Short(Environment):
+            shorthand_indexes = True
+        env = opts[key] = Short() if rec.get("shorthand") else Environment()
     src = rec["src"]
     try:
         got = lib_tokens(env, src)
@@ -119,7 +127,7 @@ def run(chk: Check, tier: str, only: tuple[str, ...] | None = None, shrink: int 
             continue
         num = walks[1] if tier == "thorough" else walks[0]
         cfg = tlc.cfg_text(constants={"Alphabet": f"<- {alpha}", "MaxLen": str(n), "Prefix": f"<- {pre}", "Suffix": f"<- {suf}",
-                                      "Focus": _q(focus)}, invariants=INVARIANTS)
+                                      "Focus": _q(focus), "Shorthand": "FALSE"}, invariants=INVARIANTS)
         r = tlc.run("LiquidLexer", cfg, tag=f"lexer-{focus}", simulate=f"num={num}", depth=n + 120, seed=seed(), timeout=3000)
         if r.error:
             chk.machinery_error = r.error
@@ -139,7 +147,7 @@ def run(chk: Check, tier: str, only: tuple[str, ...] | None = None, shrink: int 
             continue
         n = max(1, (t if tier == "thorough" else q) - shrink)
         cfg = tlc.cfg_text(constants={"Alphabet": f"<- {alpha}", "MaxLen": str(n), "Prefix": f"<- {pre}", "Suffix": f"<- {suf}",
-                                      "Focus": _q(focus)},
+                                      "Focus": _q(focus), "Shorthand": "TRUE" if focus.endswith("shorthand") else "FALSE"},
                            invariants=INVARIANTS, properties=["Progress"])
         r = tlc.run("LiquidLexer", cfg, tag=f"lexer-{focus}", timeout=3000)
         if r.error:
